@@ -313,19 +313,25 @@ fn sponge_chain<B: Backend>(name: &'static str, packing: TablePacking) -> Result
 /// a chained row that feeds rate limb 0 only (limb 1 and the capacity are inherited), then a
 /// chained row that feeds rate limb 1 only, exposing its rate.
 fn sponge_partial<B: Backend>(name: &'static str, packing: TablePacking) -> Result<Box<dyn Case>, String> {
+    sponge_partial_n::<B>(name, packing, 4)
+}
+
+/// `start_fed` < 4: the `new_start` row feeds only its first `start_fed` limbs, the others are
+/// un-fed (zero), as in a hash whose first chunk is shorter than the state.
+fn sponge_partial_n<B: Backend>(name: &'static str, packing: TablePacking, start_fed: usize) -> Result<Box<dyn Case>, String> {
     let cfg = B::poseidon_config().ok_or("backend has no permutation")?;
     let d = B::D;
     let mut b = B::new_builder();
-    let ins: Vec<ExprId> = (0..4).map(|_| b.public_input()).collect();
+    let ins: Vec<ExprId> = (0..start_fed).map(|_| b.public_input()).collect();
     let x1 = b.public_input();
     let x2 = b.public_input();
     let e0 = b.public_input();
     let e1 = b.public_input();
     let mut st = [B::BF::ZERO; 16];
     for (i, s) in st.iter_mut().enumerate() {
-        *s = B::BF::from_u64(5 + 3 * i as u64);
+        *s = if i < start_fed * d { B::BF::from_u64(5 + 3 * i as u64) } else { B::BF::ZERO };
     }
-    let mut public = limbs_of::<B>(&st);
+    let mut public: Vec<B::EF> = limbs_of::<B>(&st).into_iter().take(start_fed).collect();
     let fed: [Vec<B::BF>; 2] = [
         (0..d).map(|i| B::BF::from_u64(101 + i as u64)).collect(),
         (0..d).map(|i| B::BF::from_u64(211 + 2 * i as u64)).collect(),
@@ -335,7 +341,7 @@ fn sponge_partial<B: Backend>(name: &'static str, packing: TablePacking) -> Resu
     for row in 0..3 {
         let last = row == 2;
         let inputs = match row {
-            0 => ins.iter().map(|x| Some(*x)).collect(),
+            0 => (0..4).map(|l| ins.get(l).copied()).collect(),
             1 => vec![Some(x1), None, None, None],
             _ => vec![None, Some(x2), None, None],
         };
@@ -438,8 +444,10 @@ fn merkle<B: Backend>(name: &'static str, packing: TablePacking) -> Result<Box<d
 }
 
 /// D = 1 permutation inside a higher-degree circuit (quintic): sponge `new_start` row with
-/// two CTL inputs followed by a chained row, rate outputs exposed.
-fn sponge_base<B: Backend>(name: &'static str, packing: TablePacking) -> Result<Box<dyn Case>, String> {
+/// two CTL inputs followed by a chained row, rate outputs exposed. `connect`: the two checked
+/// outputs are connected to publics (a forged trace can re-choose them, see
+/// `Deviation::adapt_publics`) instead of `assert_zero(out - public)`.
+fn sponge_base<B: Backend>(name: &'static str, packing: TablePacking, connect: bool) -> Result<Box<dyn Case>, String> {
     let cfg = B::poseidon_config().ok_or("backend has no permutation")?;
     let mut b = B::new_builder();
     let a = b.public_input();
@@ -468,10 +476,15 @@ fn sponge_base<B: Backend>(name: &'static str, packing: TablePacking) -> Result<
         .map_err(|e| format!("{e:?}"))?;
     let e0 = b.public_input();
     let e1 = b.public_input();
-    let d0 = b.sub(outs[0].ok_or("o0")?, e0);
-    let d1 = b.sub(outs[1].ok_or("o1")?, e1);
-    b.assert_zero(d0);
-    b.assert_zero(d1);
+    if connect {
+        b.connect(outs[0].ok_or("o0")?, e0);
+        b.connect(outs[1].ok_or("o1")?, e1);
+    } else {
+        let d0 = b.sub(outs[0].ok_or("o0")?, e0);
+        let d1 = b.sub(outs[1].ok_or("o1")?, e1);
+        b.assert_zero(d0);
+        b.assert_zero(d1);
+    }
     let mut st = [B::BF::ZERO; 16];
     st[0] = B::BF::from_u64(11);
     st[1] = B::BF::from_u64(13);
@@ -595,9 +608,12 @@ pub fn catalogue() -> Vec<Spec> {
         spec!("kb5-recompose", KbD5, "recompose + recompose/coeff tables; D=5", |n| recompose::<KbD5>(n, TablePacking::default())),
         spec!("kb5-challenger-base", KbD5, "D=1 challenger pattern in a D=5 circuit: absorb_len tag, chained capacity, recompose/coeff as creator of observed coefficients, sample_ext", |n| challenger_base::<KbD5>(n, TablePacking::default())),
         spec!("kb4-sponge-partial", KbD4, "KoalaBear D4 sponge rows with partial absorbs (one rate limb fed, the other inherited)", |n| sponge_partial::<KbD4>(n, TablePacking::default())),
+        spec!("kb4-sponge-start-partial", KbD4, "same, and the new_start row feeds only its two rate limbs (un-fed capacity = zero)", |n| sponge_partial_n::<KbD4>(n, TablePacking::default(), 2)),
+        spec!("kb4-sponge-start-rate1", KbD4, "same, the new_start row feeds only rate limb 0 (un-fed rate limb 1 and capacity = zero)", |n| sponge_partial_n::<KbD4>(n, TablePacking::default(), 1)),
         spec!("bb4-sponge-partial", BbD4, "BabyBear D4 sponge rows with partial absorbs", |n| sponge_partial::<BbD4>(n, TablePacking::default())),
         spec!("kb4-sponge-chain", KbD4, "KoalaBear D4 sponge rows chained inside the table", |n| sponge_chain::<KbD4>(n, TablePacking::default())),
-        spec!("kb5-sponge-d1", KbD5, "D=1 Poseidon2 table in a D=5 circuit: sponge new_start + chained row", |n| sponge_base::<KbD5>(n, TablePacking::default())),
+        spec!("kb5-sponge-d1", KbD5, "D=1 Poseidon2 table in a D=5 circuit: sponge new_start + chained row", |n| sponge_base::<KbD5>(n, TablePacking::default(), false)),
+        spec!("kb5-sponge-d1-connect", KbD5, "same, checked outputs connected to publics: a new_start row with un-fed rate limbs whose deviation can reach the public outputs", |n| sponge_base::<KbD5>(n, TablePacking::default(), true)),
     ]
 }
 
